@@ -276,6 +276,10 @@ func checkFILETIMETicks(tk *big.Int, boundary bool, i int) {
 			r.Violation("FILETIME.Unmarshal:value", fmt.Sprintf("ticks %s: Unmarshal -> %+v n=%d err=%v", tk, ft2, n, err), cs)
 		}
 		r.Eval(2)
+		// reading a value in all these ways has not changed it
+		if orig := ftFromTicks(tk); *ft != *orig {
+			r.Violation("FILETIME:value-changed-by-reading", fmt.Sprintf("ticks %s: after the getters and Marshal the structure holds %d", tk, ft.ToInt64()), cs)
+		}
 	})
 	nontrivial("ft.ticks", tk, d1601, boundary)
 	sampleEvery(i, 9973, func() any {
@@ -800,6 +804,10 @@ func checkUUIDTicks(tk *big.Int, boundary bool, i int) {
 				err = b.FromString(a.String())
 			}
 			r.Eval(1)
+			// formatting reads the value: the time set is still the time got
+			if after := a.GetTime(); a.Time != u || !after.Equal(wt) {
+				r.Violation("uuid_v1.GetTime:after-formatting:"+reg, fmt.Sprintf("SetTime(%s), then Marshal/String: Time=%d GetTime()=%s", fmtRef(wsec, wnsec), a.Time, fmtT(after)), cs2)
+			}
 			if err != nil {
 				r.Violation("uuid_v1.roundtrip:time:error", fmt.Sprintf("timestamp %s does not survive format and parse: %v", tk, err), cs2)
 			} else if got := b.GetTime(); b.Time != u || !sameInstant(got, wsec, wnsec) {
@@ -824,6 +832,10 @@ func checkUUIDTicks(tk *big.Int, boundary bool, i int) {
 				err = b.FromString(a.String())
 			}
 			r.Eval(1)
+			// formatting reads the value: the time set is still the time got
+			if after := a.GetTime(); a.Time != u || !after.Equal(wt) {
+				r.Violation("uuid_v2.GetTime:after-formatting:"+reg, fmt.Sprintf("SetTime(%s), then Marshal/String: Time=%d GetTime()=%s", fmtRef(wsec, wnsec), a.Time, fmtT(after)), cs2)
+			}
 			// a version-2 UUID carries the upper 28 bits of the timestamp (2^32 ticks, about 7
 			// minutes, resolution): exactly those bits must come back
 			want := u &^ 0xFFFFFFFF
